@@ -928,23 +928,23 @@ Proof.
     + intros m Hm. destruct (Hlk m Hm) as [Hmn Hin]. unfold slot_at. rewrite Hsl.
       change (linked (slot_at (unlink_mark s n) m) = true). rewrite unlink_mark_linked by auto. apply (i_linked _ I). exact Hin.
 Qed.
-Lemma L_cklock : forall s t cl n,
+Lemma L_cklock : forall s t cl n s1,
   Inv s -> nth_error (clients s) t = Some cl -> cst s t = CKLock n -> mtx s = None ->
-  Inv (set_client (mark (if linked (slot_at s n) then set_lst s (remove_nat n (lst s)) else s) n (SHeld t)) t
-                  (goto cl (CKResume n))).
+  slots s1 = slots s -> clients s1 = clients s -> coros s1 = coros s -> freel s1 = freel s -> nver s1 = nver s ->
+  tokens s1 = tokens s -> bad s1 = bad s -> rlog s1 = rlog s -> mtx s1 = mtx s ->
+  lst s1 = (if linked (slot_at s n) then remove_nat n (lst s) else lst s) ->
+  Inv (set_client (mark s1 n (SHeld t)) t (goto cl (CKResume n))).
 Proof.
-  intros s t cl n I Hcl Hp Em.
+  intros s t cl n s1 I Hcl Hp Em Hs1 Q1 Q2 Q3 Q4 Q5 Q6 Q7 Q8 Q9.
   destruct (i_thread _ I t) as (_ & _ & _ & TD & _). rewrite Hp in TD. destruct (TD n) as [Hn Hg]; [cbn; auto|].
   pose proof (i_slot _ I n Hn) as Sn. unfold slot_ok in Sn. rewrite Hg in Sn. destruct Sn as (S1 & S2 & S3 & S4 & S5).
   set (L' := if linked (slot_at s n) then remove_nat n (lst s) else lst s).
-  set (s1 := if linked (slot_at s n) then set_lst s (remove_nat n (lst s)) else s).
   set (s' := set_client _ t _).
-  assert (Hl' : lst s' = L') by (unfold s', s1, L'; destruct (linked (slot_at s n)); reflexivity).
-  assert (Hs1 : slots s1 = slots s) by (unfold s1; destruct (linked (slot_at s n)); reflexivity).
+  assert (Hl' : lst s' = L') by exact Q9.
   assert (Hs1n : slot_at s1 n = slot_at s n) by (apply slot_at_frame; auto).
   assert (Hrest : coros s' = coros s /\ nver s' = nver s /\ tokens s' = tokens s /\ bad s' = bad s /\ rlog s' = rlog s /\
                   freel s' = freel s /\ mtx s' = mtx s).
-  { unfold s', s1. destruct (linked (slot_at s n)); repeat split; reflexivity. }
+  { repeat split; [exact Q2 | exact Q4 | exact Q5 | exact Q6 | exact Q7 | exact Q3 | exact Q8]. }
   destruct Hrest as (R1 & R2 & R3 & R4 & R5 & R6 & R7).
   assert (Hv : vis s = lst s) by (rewrite (vis_eq s (lst s) None); auto; apply app_nil_r).
   assert (Hv' : vis s' = L') by (rewrite (vis_eq s' L' None); auto; [apply app_nil_r | congruence]).
@@ -958,9 +958,9 @@ Proof.
   assert (HLnd : NoDup L').
   { unfold L'. destruct (linked (slot_at s n)); auto. apply remove_nat_nodup. auto. }
   assert (Hc1 : cst s' t = CKResume n).
-  { unfold s'. erewrite cst_set_eq; [reflexivity|]. unfold s1. destruct (linked (slot_at s n)); exact Hcl. }
+  { unfold s'. erewrite cst_set_eq; [reflexivity|]. transitivity (nth_error (clients s) t); [f_equal; exact Q1 | exact Hcl]. }
   assert (Hc2 : forall t', t' <> t -> cst s' t' = cst s t').
-  { intros t' Ht'. unfold s'. etransitivity; [apply cst_set_ne; auto|]. apply cst_frame. unfold s1. destruct (linked (slot_at s n)); reflexivity. }
+  { intros t' Ht'. unfold s'. etransitivity; [apply cst_set_ne; auto|]. apply cst_frame. exact Q1. }
   assert (Hsn : slot_at s' n = upd_slot (slot_at s n) (ver (slot_at s n)) (linked (slot_at s n)) (SHeld t)).
   { unfold s', mark. change (slot_at (set_client ?x t ?c) n) with (slot_at x n). rewrite Hs1n.
     apply slot_at_put_eq. unfold nslots. rewrite Hs1. exact Hn. }
@@ -994,13 +994,51 @@ Proof.
     apply (i_linked _ I). auto.
 Qed.
 
+(* ------------------------------------------------------------------ link fields: the list is what the pointers say *)
+Definition succs (l : list nat) : list (option nat) :=
+  match l with [] => [] | _ :: r => map Some r ++ [None] end.
+
+(* node->next of every member of the list is its successor (nullptr for the last); a node a canceller took and that
+   still has prev set is still in the list; the node wake_one detached has prev cleared *)
+Record WF (s : st) : Prop := {
+  w_len : length (nxt s) = nslots s;
+  w_next : map (nnext s) (lst s) = map enc (succs (lst s));
+  w_lk : forall n t, (n < nslots s)%nat -> sst (slot_at s n) = SCan t -> linked (slot_at s n) = true -> In n (vis s);
+  w_w1 : forall t n, cst s t = W1Take n -> linked (slot_at s n) = false
+}.
+
+Lemma succs_cons2 : forall a b r, succs (a :: b :: r) = Some b :: succs (b :: r).
+Proof. reflexivity. Qed.
+Lemma next_in : forall (f : nat -> Z) l n, map f l = map enc (succs l) -> In n l -> f n <> 0 ->
+  exists m, dec (f n) = Some m /\ In m l.
+Proof.
+  induction l as [|a r IH]; intros n H Hin Hnz; [destruct Hin|].
+  destruct r as [|b r'].
+  - cbn in H. inversion H. destruct Hin as [<-|[]]. congruence.
+  - rewrite succs_cons2 in H. cbn [map] in H. inversion H as [[H1 H2]]. destruct Hin as [<-|Hin].
+    + exists b. split; [rewrite H1; exact (dec_enc (Some b)) | cbn; auto].
+    + destruct (IH n H2 Hin Hnz) as (m & Hm & Hi). exists m. split; auto. cbn. auto.
+Qed.
+Lemma upd_slot_same : forall sl lk, linked sl = lk -> upd_slot sl (ver sl) lk (sst sl) = sl.
+Proof. intros [a b c d e f g] lk H. cbn in *. subst. reflexivity. Qed.
+Lemma set_nth_same : forall A (l : list A) n d, (n < length l)%nat -> set_nth n (nth n l d) l = l.
+Proof. induction l as [|y l IH]; intros [|n] d H; cbn in *; try lia; auto. f_equal. apply IH. lia. Qed.
+Lemma memb_in : forall m l, In m l -> memb m l = true.
+Proof. intros. unfold memb. apply existsb_exists. exists m. split; auto. apply Nat.eqb_refl. Qed.
+Lemma fix_pred_fields : forall s l n nx,
+  slots (fix_pred s l n nx) = slots s /\ clients (fix_pred s l n nx) = clients s /\ coros (fix_pred s l n nx) = coros s /\
+  freel (fix_pred s l n nx) = freel s /\ nver (fix_pred s l n nx) = nver s /\ tokens (fix_pred s l n nx) = tokens s /\
+  bad (fix_pred s l n nx) = bad s /\ rlog (fix_pred s l n nx) = rlog s /\ mtx (fix_pred s l n nx) = mtx s /\
+  lst (fix_pred s l n nx) = lst s.
+Proof. intros. unfold fix_pred. destruct (pred_of l n); repeat split; reflexivity. Qed.
+
 Lemma enc_some_nz : forall m, (enc (Some m) =? 0) = false.
 Proof. intro. unfold enc. apply Z.eqb_neq. lia. Qed.
 
 Lemma step_client_inv : forall s t cl s',
-  Inv s -> nth_error (clients s) t = Some cl -> step_client cfg_fixed s t cl = Some s' -> Inv s'.
+  Inv s -> WF s -> nth_error (clients s) t = Some cl -> step_client cfg_fixed s t cl = Some s' -> Inv s'.
 Proof.
-  intros s t cl s' I Hcl Hst.
+  intros s t cl s' I W Hcl Hst.
   pose proof (cst_of _ _ _ Hcl) as Hp.
   destruct (i_thread _ I t) as (TA & TB & TC & TD & TE).
   unfold step_client in Hst. destruct (cpcv cl) eqn:Epc; rewrite Hp in TA, TB, TC, TD, TE; cbn [held_pc fin_pc can_pc chain_pc] in *.
@@ -1157,11 +1195,26 @@ Proof.
     + simple_move s t CIdle I Hp Hcl.
     + simple_move s t (WAResume a r (cnt + 1)) I Hp Hcl.
   - (* CKLock *)
-    destruct (mtx s) eqn:Em; [discriminate|]. cbn [cfg_fixed unlink_linked unlink_unlinked] in Hst.
-    assert (Hst' : s' = set_client (mark (if linked (slot_at s n) then set_lst s (remove_nat n (lst s)) else s) n (SHeld t)) t
-                               (goto cl (CKResume n))).
-    { destruct (linked (slot_at s n)); inversion Hst; reflexivity. }
-    subst s'. apply L_cklock; auto.
+    destruct (mtx s) eqn:Em; [discriminate|].
+    cbn [cfg_fixed unlink_linked unlink_unlinked fix2_nested fix2_nonnull fix2_null] in Hst.
+    assert (Hv : vis s = lst s) by (rewrite (vis_eq s (lst s) None); auto; apply app_nil_r).
+    destruct (TD n) as [Hn Hg]; [cbn; auto|].
+    destruct (linked (slot_at s n)) eqn:El.
+    + (* still linked: both fix-ups; the successor is a member of the list *)
+      assert (Hin : In n (lst s)) by (rewrite <- Hv; eapply (w_lk _ W); eauto).
+      destruct (fix_pred_fields (set_lst s (remove_nat n (lst s))) (lst s) n (nnext s n))
+        as (F1 & F2 & F3 & F4 & F5 & F6 & F7 & F8 & F9 & F10).
+      destruct (nnext s n =? 0) eqn:Enx; cbn [andb] in Hst.
+      * inversion Hst; subst s'; clear Hst. apply (L_cklock s t cl n _ I Hcl Hp Em); auto. rewrite El. exact F10.
+      * apply Z.eqb_neq in Enx. destruct (next_in (nnext s) (lst s) n (w_next _ W) Hin Enx) as (m & Hm & Hmin).
+        rewrite Hm in Hst. rewrite (memb_in _ _ Hmin) in Hst. inversion Hst; subst s'; clear Hst.
+        assert (Hml : (m < nslots s)%nat) by (apply (i_vis _ I); rewrite Hv; exact Hmin).
+        assert (Hs2 : slots (fix_next (fix_pred (set_lst s (remove_nat n (lst s))) (lst s) n (nnext s n)) m true true) = slots s).
+        { unfold fix_next, put_slot. cbn [slots set_slots]. rewrite F1. unfold slot_at. rewrite F1.
+          rewrite upd_slot_same by (apply (i_linked _ I); exact Hmin). apply set_nth_same. exact Hml. }
+        apply (L_cklock s t cl n _ I Hcl Hp Em); auto. rewrite El. exact F10.
+    + (* already unlinked by a waker: nothing is touched *)
+      cbn [andb] in Hst. inversion Hst; subst s'; clear Hst. apply (L_cklock s t cl n s I Hcl Hp Em); auto. rewrite El. reflexivity.
   - (* CKResume *)
     inversion Hst; subst s'; clear Hst.
     apply (L_resume s t cl n (goto cl (CKFinish n)) I Hcl); rewrite ?Hp; cbn; auto; try tauto.
